@@ -101,7 +101,8 @@ func ParseWithDialect(dialect dialect.Dialect, sql string) (Statement, error) {
 	tokenizer := NewStringTokenizerWithDialect(dialect, sql)
 	if yyParse(tokenizer) != 0 {
 		if tokenizer.partialDDL != nil {
-			log.Printf("ignoring error parsing DDL '%s': %v", sql, tokenizer.LastError)
+			// don't log sql itself: it is unparsed and may contain sensitive literals
+			log.Printf("ignoring error parsing DDL: %v", tokenizer.LastError)
 			tokenizer.ParseTree = tokenizer.partialDDL
 			return tokenizer.ParseTree, nil
 		}
